@@ -176,6 +176,18 @@ func (x *Exec) load(n *node, ptr Value, ty types.Type, pos token.Pos) Value {
 			x.guardField(n, p.Outer, fname, p.Obj, pos, false)
 			v := x.loadField(st, p.Outer, fname, ty, p.Obj, n.guard)
 			x.applyObserve(n, p.Outer, fname, p.Obj, v)
+			if x.P.Spec.Fields[p.Outer+"."+fname] == "nonnil" {
+				// configuration field declared never nil once the object is in use (assumption, listed in the evidence)
+				x.VC.Assumptions["field "+p.Outer+"."+fname+" is never nil on an object in use (set before the object is shared)"] = true
+				switch vv := v.(type) {
+				case IfaceV:
+					x.VC.Assume(n.guard, Not(Eq(vv.Tag, IntLit(0))), "nonnil-field")
+				case Scalar:
+					if vv.T.S == IntS {
+						x.VC.Assume(n.guard, Not(Eq(vv.T, IntLit(0))), "nonnil-field")
+					}
+				}
+			}
 			return v
 		case "elem":
 			x.guardElem(n, ty, p.Obj, pos, false)
@@ -1042,6 +1054,10 @@ func (x *Exec) typeAssert(n *node, v Value, i *ssa.TypeAssert) Value {
 	if _, isIface := i.AssertedType.Underlying().(*types.Interface); isIface {
 		// interface-to-interface: succeeds iff dynamic type implements it; statically known for concrete tags
 		okT = x.implementsTerm(iv, i.AssertedType)
+		if types.Identical(i.X.Type(), i.AssertedType) {
+			// x.(I) with I the static type of x (method value of an interface): only checks for nil
+			okT = Not(Eq(iv.Tag, IntLit(0)))
+		}
 		res = IfaceV{Tag: iv.Tag, Val: iv.Val, Ty: i.AssertedType, Box: iv.Box}
 	} else {
 		tag := x.typeTag(i.AssertedType)
@@ -1169,6 +1185,6 @@ func (x *Exec) atStore(fc *funcCtx, n *node, i *ssa.Store, ptr Value) {
 		}
 		cur := x.objGet(n.st, "ghost."+tk, IntS, lv.Obj)
 		internal := x.objGet(n.st, "ghost.internal", BoolS, lv.Obj)
-		x.Oblige("owned", fmt.Sprintf("write of %s needs the %s token of the object (%s)", key, tk, x.srcExpr(i.Pos(), "selector")), fmt.Sprint(i.Pos()), i.Pos(), n.guard, Or(Eq(cur, IntLit(2)), internal), nil)
+		x.Oblige("owned", fmt.Sprintf("write of %s needs the %s token of the object (%s)", key, tk, x.srcExpr(i.Pos(), "selector")), fmt.Sprint(i.Pos()), i.Pos(), n.guard, Or(Eq(cur, IntLit(2)), internal), x.P.Spec.FieldProps[key])
 	}
 }
